@@ -48,6 +48,13 @@ def pStep (pool : Array ObjRec) (nq : Nat) : Tok → Except String StepRes
   | "panic" :: m => .error ("panic:" ++ " ".intercalate m)
   | _ => .error "bad-step-syntax"
 
+/-- `List.isPerm` for lists of pool records, in O(n log n): every `ObjRec` of a run is `pool[id]`, so records
+with equal ids are equal and two lists are permutations of each other iff they are equal after a stable sort
+by id (the comparison after sorting is on the whole records).  Equivalent to `isPerm` on such lists; the
+quadratic `isPerm` dominated the judge's time. -/
+def permById (a b : List ObjRec) : Bool :=
+  a.length == b.length && a.mergeSort (fun x y => x.id ≤ y.id) == b.mergeSort (fun x y => x.id ≤ y.id)
+
 def faultStr : Fault → String
   | .nilDeref => "nilDeref" | .nilObj => "nilObj" | .indexRange => "indexRange" | .choice => "choice" | .nnNil => "nnNil"
 
@@ -61,13 +68,13 @@ def specCheck (h : Hist) (s sPrev : List ObjRec) (op : Op ObjRec) (prevDump : St
   else if !(r.tree.leaf || !r.tree.entries.isEmpty) then
     some s!"Depth={r.depth}-but-the-tree-has-no-leaf(non-leaf-root-without-entries)"
   else if r.size != t.abs.length then some s!"Size={r.size}-but-{t.abs.length}-objects-stored"
-  else if !(t.abs.isPerm s) then some s!"stored-objects-differ-from-history:stored=[{idsStr t.abs}]-expected=[{idsStr s}]"
+  else if !(permById t.abs s) then some s!"stored-objects-differ-from-history:stored=[{idsStr t.abs}]-expected=[{idsStr s}]"
   else
     let delBad : Option String :=
       match op, r.delres with
       | .del o, some b =>
         if b != specDeleteResult sPrev o then some s!"Delete-returned-{b}-expected-{specDeleteResult sPrev o}"
-        else if !b && (nodeStr r.tree != prevDump || (prev.map (·.size)) != some r.size || (prev.map (·.depth)) != some r.depth)
+        else if !b && prev.isSome && (nodeStr r.tree != prevDump || (prev.map (·.size)) != some r.size || (prev.map (·.depth)) != some r.depth)
           then some "Delete-of-absent-object-changed-the-tree"
         else none
       | .del _, none => some "Delete-result-missing"
@@ -76,7 +83,7 @@ def specCheck (h : Hist) (s sPrev : List ObjRec) (op : Op ObjRec) (prevDump : St
     | some m => some m
     | none =>
       let bad := (h.queries.zip r.answers).zipIdx.filterMap fun ((q, a), i) =>
-        if a.isPerm (specSearch s q) then none
+        if permById a (specSearch s q) then none
         else some s!"SearchIntersect-q{i}({boxStr q})-returned=[{idsStr a}]-brute-force=[{idsStr (specSearch s q)}]"
       bad.head?
 
@@ -99,10 +106,19 @@ def judgeHist (h : Hist) (steps : List Tok) : String := Id.run do
   for (name, op) in h.ops do
     i := i + 1
     let at_ := s!"step={i}/{m}-op={name}"
-    let st := sts.headD []
-    sts := sts.tail
     let sPrev := s
     s := opSpecStep s op
+    if name.startsWith "i" || name.startsWith "d" then
+      -- silent operation: no step was reported; the history semantics and the model advance
+      if firstDiff.isNone && !specOnly then
+        match model.step goHeur op with
+        | .error f => firstDiff := some s!"{at_}-model-faults-{faultStr f}-impl-does-not"
+        | .ok (t', _) => model := t'
+      prev := none
+      prevDump := ""
+      continue
+    let st := sts.headD []
+    sts := sts.tail
     match pStep h.pool h.queries.length st with
     | .error e => return s!"SPEC {cls} {at_}-{e}"
     | .ok r =>
